@@ -59,7 +59,8 @@ class Node:
         return self.world.host_lib(self.host)
 
     def lparams(self, pset=None):
-        return worlds.lib_params(self.world.psets[self.cur_pset if pset is None else pset], self.lib())
+        return worlds.lib_params(self.world.psets[self.cur_pset if pset is None else pset], self.lib(),
+                                 cache=not self.world.ephemeral)
 
     def make_spec(self, cls=None, pset=None):
         return SpecNode(cls or self.cls, self.pw, self.ida, self.idb, self.ids, params=self.mparams(pset))
@@ -72,6 +73,7 @@ class World:
         # hosts = simulated processes.  By default every node lives in the worker's long-running
         # default copy of the library; a scenario with "fresh_hosts" gives every host its own
         # brand-new copy (so the run is self-contained) and may `reboot` a host.
+        self.ephemeral = bool(config.get("ephemeral_params"))   # custom _Params live and die with a session
         self.fresh_hosts = bool(config.get("fresh_hosts"))
         self.hosts = {} if self.fresh_hosts else {0: self.lib}
         self.reboots = 0
@@ -311,7 +313,7 @@ class World:
             n.model_out = spec.out
             return self.log(step, "inst", dg(spec.out))
         K = n.lib().classes[cls]
-        P = worlds.lib_params(self.psets[pset], n.lib())
+        P = n.lparams(pset)
         r = self._call(n, "from_serialized", lambda: K.from_serialized(n.slot, params=P))
         if r[0] == "exc":
             return self.log(step, "exc:" + r[1])
